@@ -6,7 +6,7 @@ OPTS = [dict(), dict(max_m=2, max_t=4, p_nonexcl=0.15), dict(sched="rr", nested=
 
 
 def run(rep):
-    core_check(rep, "C01", [dict(o) for o in OPTS], 96, 1600, nontrivial_key="impl_with_shared_exclusive_method")
+    core_check(rep, "C01", [dict(o) for o in OPTS], 64, 1600, nontrivial_key="impl_with_shared_exclusive_method")
     rep.coverage["rule"] = ("random designs from the grammar, built with the real API; every valuation of the control inputs "
                             "(or 128/512 random ones); clauses ExclusiveOnce + JointRunOnlyIfExcl on observed run/witness signals, "
                             "both schedulers; distinct_nontrivial = built designs in which an exclusive method has >=2 caller bodies")
